@@ -170,6 +170,13 @@ func c11Ufs(x *Ctx) {
 			walks = append(walks, &Msg{Type: Twalk, Tag: next(), Fid: 0, Newfid: uint32(100 + i), Wname: []string{"d"}})
 			creates = append(creates, &Msg{Type: Tcreate, Tag: next(), Fid: uint32(100 + i), Name: fmt.Sprintf("new%d", i), Perm: 0o644, Mode: 1})
 		}
+		// hard links that fail (the name exists; the source is a directory) and name open fids as their source:
+		// the source fids are released at the disconnect like the others
+		if c.cfg("dotu") != 0 && n > 0 {
+			walks = append(walks, &Msg{Type: Twalk, Tag: next(), Fid: 0, Newfid: 110, Wname: []string{"d"}}, &Msg{Type: Twalk, Tag: next(), Fid: 0, Newfid: 111, Wname: nil})
+			creates = append(creates, &Msg{Type: Tcreate, Tag: next(), Fid: 110, Name: "new0", Perm: 0x01000000 | 0o644, Mode: 0, Ext: "10"},
+				&Msg{Type: Tcreate, Tag: next(), Fid: 111, Name: "lnk-to-dir", Perm: 0x01000000 | 0o644, Mode: 0, Ext: "90"})
+		}
 		// the directory is then listed again from its start, twice, through the same fid
 		again := func() []*Msg { return []*Msg{{Type: Tread, Tag: next(), Fid: 90, Offset: 0, Count: 4000}} }
 		// and a Topen with a Tversion right behind it: the open may be cancelled while Ufs is in the middle of it
